@@ -54,6 +54,10 @@ def holds(conds, env, sub=std_sub, call=std_call, attr=std_attr):
         try:
             v = bool(ev(test, env, sub=sub, call=call, attr=attr))
         except Undecidable:
+            # a condition about other things than the variables under study (an earlier guard clause on another argument)
+            # says nothing here; one that mentions them and cannot be evaluated makes the answer unknown
+            if env and not ({n.id for n in ast.walk(test) if isinstance(n, ast.Name)} & set(env)):
+                continue
             res = None
             continue
         if v != pol:
